@@ -48,7 +48,7 @@ const XFS: [&str; 4] = ["rotate(30)", "scale(2)", "translate(3, -1) rotate(-90)"
 const DIRS: [&str; 4] = ["h", "H", "v", "V"];
 
 fn inst() -> impl Strategy<Value = Inst> {
-    (0u8..17, crate::gen::nice_pos(12), crate::gen::nice_pos(8), 0..LABELS.len(), 0..CLASSES.len(), any::<bool>(), prop::option::of((crate::gen::nice(40), crate::gen::nice(40))), any::<u8>(), any::<u8>(), crate::gen::nice_pos(6))
+    (0u8..18, crate::gen::nice_pos(12), crate::gen::nice_pos(8), 0..LABELS.len(), 0..CLASSES.len(), any::<bool>(), prop::option::of((crate::gen::nice(40), crate::gen::nice(40))), any::<u8>(), any::<u8>(), crate::gen::nice_pos(6))
         .prop_map(|(tpl, w, h, l, c, id, xy, m, m2, gap)| Inst {
             tpl,
             w: w.max(1.0),
@@ -114,7 +114,7 @@ fn inline_template() -> Vec<XEl> {
 }
 
 fn tpl_id(t: u8) -> &'static str {
-    ["tr", "tc", "tg", "ts", "tn", "ti", "fr", "fc", "fe", "fg", "tf", "tw", "td", "fw", "te", "tx", "tv"][t as usize % 17]
+    ["tr", "tc", "tg", "ts", "tn", "ti", "fr", "fc", "fe", "fg", "tf", "tw", "td", "fw", "te", "tx", "tv", "pv"][t as usize % 18]
 }
 
 fn reuse_xml(k: usize, i: &Inst) -> XEl {
@@ -122,7 +122,9 @@ fn reuse_xml(k: usize, i: &Inst) -> XEl {
     if i.id {
         r.set("id", format!("i{k}"));
     }
-    r.set("href", format!("#{}", tpl_id(i.tpl)));
+    // (template 17: the element just before the reuse, referred to as "^" - it has an id of its own, which the instance
+    // must not keep: it becomes a class like any other target id)
+    r.set("href", if i.tpl % 18 == 17 { "^".to_string() } else { format!("#{}", tpl_id(i.tpl)) });
     r.set("w", num(i.w));
     r.set("h", num(i.h));
     r.set("label", i.label.clone());
@@ -193,8 +195,9 @@ fn inline_xml(k: usize, i: &Inst) -> XEl {
         g
     };
     let fixed_group = || XEl::new("g").kid(XEl::new("rect").a("wh", "6 2")).kid(XEl::new("circle").a("cx", "6").a("cy", "1").a("r", "1"));
-    match i.tpl % 17 {
+    match i.tpl % 18 {
         6 => deco(at(XEl::new("rect").a("wh", "4 2")), "", "fr"),
+        17 => deco(at(XEl::new("rect").a("xy", "0 0").a("wh", "4 2")), "", &format!("pv{k}")),
         7 => deco(at(XEl::new("circle").a("r", "2")), "", "fc"),
         13 => deco(at(XEl::new("circle").a("wh", "4")), "", "fw"),
         14 => deco(at(XEl::new("rect").a("wh", format!("{{{{{} + 1}}}} {{{{{} * 2}}}}", num(i.w), num(i.h))).a("text", i.label.clone())), "", "te"),
@@ -246,7 +249,7 @@ fn inline_xml(k: usize, i: &Inst) -> XEl {
 pub fn docs(c: &Case) -> (String, String) {
     let mk = |by_hand: bool| -> String {
         let mut kids: Vec<X> = Vec::new();
-        let uses_inline = c.insts.iter().any(|i| i.tpl % 17 == 5);
+        let uses_inline = c.insts.iter().any(|i| i.tpl % 18 == 5);
         // (a document-level variable which one of the templates counts up locally)
         kids.push(X::El(XEl::new("var").a("cnt", "1")));
         kids.push(X::El(defs_template()));
@@ -267,6 +270,9 @@ pub fn docs(c: &Case) -> (String, String) {
             }
             // an unrelated element between instances: instances must not disturb it, nor it them
             kids.push(X::El(XEl::new("circle").a("cxy", format!("{} -20", k * 5)).a("r", "1")));
+            if i.tpl % 18 == 17 {
+                kids.push(X::El(XEl::new("rect").a("id", format!("pv{k}")).a("xy", "0 0").a("wh", "4 2")));
+            }
             kids.push(X::El(if by_hand { inline_xml(k, i) } else { reuse_xml(k, i) }));
         }
         if uses_inline && c.inline_after {
@@ -339,7 +345,7 @@ impl Property for C18 {
     fn judge(&self, case: &Case, _strict: bool) -> Verdict {
         let (with_reuse, by_hand) = docs(case);
         let cfg = Cfg::plain();
-        let nested = case.insts.iter().any(|i| i.tpl % 17 == 4);
+        let nested = case.insts.iter().any(|i| i.tpl % 18 == 4);
         let distinct_bindings = case.insts.len() >= 2 && case.insts.windows(2).any(|w| w[0].w != w[1].w || w[0].label != w[1].label);
         let labels: Vec<String> = case.insts.iter().map(|i| format!("tpl:{}", tpl_id(i.tpl))).collect::<std::collections::BTreeSet<_>>().into_iter().collect();
         match (transform(&with_reuse, &cfg), transform(&by_hand, &cfg)) {
@@ -360,9 +366,9 @@ impl Property for C18 {
                 } else {
                     let i = cx.iter().zip(cy.iter()).position(|(p, q)| p != q).unwrap_or(cx.len().min(cy.len()));
                     // is it (only) an instance of the template with an internal forward reference?
-                    if case.insts.iter().any(|i| i.tpl % 17 == 11) {
+                    if case.insts.iter().any(|i| i.tpl % 18 == 11) {
                         let mut reduced = case.clone();
-                        reduced.insts.retain(|i| i.tpl % 17 != 11);
+                        reduced.insts.retain(|i| i.tpl % 18 != 11);
                         if reduced.insts.is_empty() || self.judge(&reduced, _strict).status == crate::engine::Status::Pass {
                             let i = cx.iter().zip(cy.iter()).position(|(p, q)| p != q).unwrap_or(cx.len().min(cy.len()));
                             return Verdict::fail(
